@@ -36,6 +36,18 @@ def build_template(w: TableWorld) -> None:
     t.append_records([row(1), row(2)])
 
 
+def build_pointer_lost_template(w: TableWorld) -> None:
+    """The healthy template without its version pointer: every open recovers the current version by scanning."""
+    import os
+
+    build_template(w)
+    if w.backend == "local":
+        os.remove(os.path.join(w.root, reader.HINT))
+        w.adapter._set(reader.HINT, None)
+    else:
+        w.s3w.s3._del(f"{w.location}/{reader.HINT}")
+
+
 def build_empty_template(w: TableWorld) -> None:
     from datashard import create_table
 
@@ -95,8 +107,10 @@ class _PointerFault:
 
 class C02World(TableWorld):
     def __init__(self, backend: str, api: str, writers: Tuple[str, ...], n_readers: int, rep: Report, cfg: Dict[str, Any]):
+        self.lazy_handles = bool(cfg.get("pointer_lost"))
         super().__init__(backend, "separate", n_readers + len(writers),
-                         build_empty_template if cfg.get("empty") else build_template, name="c02")
+                         build_empty_template if cfg.get("empty") else
+                         (build_pointer_lost_template if cfg.get("pointer_lost") else build_template), name="c02")
         self.api, self.writers, self.n_readers = api, writers, n_readers
         self.rep, self.cfg = rep, cfg
         self.prelude = cfg.get("reader_prelude")
@@ -115,6 +129,8 @@ class C02World(TableWorld):
                 else:
                     self.s3w.s3.gates.append(f.gate)
         st = self.state()
+        if st.md is None and cfg.get("pointer_lost"):
+            st = reader.TableState(self.view, name=reader.metadata_files(self.view)[-1][1])
         self.v0 = st.md["__file__"]
         self.base_files = st.current_files()
         self.base_current = st.current_id
@@ -140,10 +156,13 @@ class C02World(TableWorld):
         return out
 
     def _reader(self, r: int):
-        t = self.handle(r)
+        t = None if self.lazy_handles else self.handle(r)
         name = f"R{r}"
 
         def body():
+            nonlocal t
+            if t is None:
+                t = self.handle(r)  # opened by the actor itself
             log = self.reads.setdefault(name, [])
             if self.prelude == "failed_commit" and r == 0:
                 # the SAME handle first attempts a commit that fails at the pointer write, then reads
@@ -161,10 +180,13 @@ class C02World(TableWorld):
         return body
 
     def _writer(self, i: int, wop: str):
-        t = self.handle(self.n_readers + i)
+        t = None if self.lazy_handles else self.handle(self.n_readers + i)
         files = self.base_files
 
         def body():
+            nonlocal t
+            if t is None:
+                t = self.handle(self.n_readers + i)
             if wop in ("append", "failed_commit"):
                 return t.append_records([row(10 + i)])
             if wop == "append2tx":
@@ -230,6 +252,13 @@ class C02World(TableWorld):
                     if res == want:
                         match = i
                         break
+                if match is None and self.cfg.get("pointer_lost"):
+                    # without a pointer the reader resolves "current" by scanning, and the writer's metadata file is on
+                    # storage before its commit point: what such a read may see is C10's subject (known findings there);
+                    # here it only has to be SOME published version
+                    if any(_safe_eq(self, v, res) for v in versions):
+                        self.rep.add("pointer_lost_reads_not_judged_against_the_commit_point")
+                        continue
                 if match is None:
                     any_i = [i for i in range(0, len(versions)) if _safe_eq(self, versions[i], res)]
                     why = ("moved backwards in commit order" if any(i < lo for i in any_i) and any_i else
@@ -251,6 +280,17 @@ class C02World(TableWorld):
                                 f"become visible all at once ({want} expected)")
         if self.prelude == "failed_commit" and pubs.count("R0"):
             problems.append("R0's failing commit advanced the pointer")
+        # whoever else touched the pointer meanwhile: the table must end on the last acknowledged commit
+        acked = [body.strip() for a, body in self.publish_log if a.startswith("W") and
+                 outcome_of(acts[a]) == ("ok", True)]
+        if acked:
+            try:
+                fs = self.state()
+                final = fs.md["__file__"] if fs.md is not None else reader.metadata_files(self.view)[-1][1]
+            except Exception as e:  # noqa
+                final = f"<unreadable: {e}>"
+            if final != acked[-1]:
+                problems.append(f"the table ends on {final}, not on the last acknowledged commit {acked[-1]}")
         okey = (len(self.publish_log), tuple(sorted((n, tuple((a, b) for a, b, _ in v)) for n, v in self.reads.items())))
         self.outcomes[okey] = self.outcomes.get(okey, 0) + 1
         rep.nontrivial((self.cfg["id"], okey))
@@ -303,11 +343,13 @@ def run_config(cfg: Dict[str, Any]) -> Dict[str, Any]:
 def configs(tier: str, seed: int) -> List[Dict[str, Any]]:
     out = []
 
-    def add(backend, api, writers, readers=1, bound=None, sample=False, prelude=None, empty=False):
+    def add(backend, api, writers, readers=1, bound=None, sample=False, prelude=None, empty=False, pointer_lost=False):
         cid = f"{backend}/{api}/{'+'.join(writers)}/r{readers}" + (f"/b{bound}" if bound is not None else "") \
-            + (f"/same-handle-{prelude}" if prelude else "") + ("/empty-table" if empty else "")
+            + (f"/same-handle-{prelude}" if prelude else "") + ("/empty-table" if empty else "") \
+            + ("/pointer-lost" if pointer_lost else "")
         out.append({"id": cid, "backend": backend, "api": api, "writers": list(writers), "readers": readers,
-                    "bound": bound, "tier": tier, "seed": seed, "sample": sample, "reader_prelude": prelude, "empty": empty})
+                    "bound": bound, "tier": tier, "seed": seed, "sample": sample, "reader_prelude": prelude, "empty": empty,
+                    "pointer_lost": pointer_lost})
 
     k = seed
     for api in APIS:
@@ -321,6 +363,11 @@ def configs(tier: str, seed: int) -> List[Dict[str, Any]]:
     # the very first commit of a table lands while a reader is in flight
     for k3, api in enumerate(APIS if tier != "quick" else ("scan", "row_count", "iter_records")):
         add(("s3", "local")[k3 % 2], api, ("append",), empty=True)
+    # the pointer is missing when reader and writer start: the reader recovers by scanning while the writer commits
+    for k4, api in enumerate(("scan", "row_count") if tier != "quick" else ("row_count",)):
+        add("local", api, ("append",), pointer_lost=True, bound=2 if tier == "quick" else None)
+        if tier != "quick":
+            add("s3", api, ("append",), pointer_lost=True, bound=3)
     # a handle whose own commit failed at the pointer write, then reads while another handle commits
     for k2, api in enumerate(APIS if tier != "quick" else ("scan", "row_count", "scan_batches")):
         add(("local", "s3")[k2 % 2], api, ("append",), prelude="failed_commit", bound=None if tier != "quick" else 2)
